@@ -78,4 +78,13 @@ TEXT = {
          'error bodies are outside the domain.',
  'technique': 'property-based testing (rapid): exact-size probes against a non-delivery model; measured allocation bound (TotalAlloc) for bombs and lying '
               'prefixes'},
+    'C08': {'text': 'Exploration: (1) reference-client requests with arbitrary encoding / accept-encoding lists against handlers with generated registrations and '
+         "thresholds, judged by a negotiation model and by decompressing every flagged payload with the harness's own decompressors; (2) library clients with "
+         'generated registrations against a scripted reference server (advertised order, request compression rules, unregistered response encodings rejected); '
+         '(3) call histories mixing valid and five kinds of corrupt compressed messages on one shared handler and client set, incl. a stateful toy codec, '
+         'requiring every valid call to behave as on fresh pools.',
+ 'design_ref': 'DESIGN.md §5 C08',
+ 'note': "Trusted: the harness's compress/* based decompressors and the toy codec; refwire for building requests/responses.",
+ 'technique': 'property-based testing (rapid): negotiation reference model, independent decompression oracle, history invariant (valid call == fresh result) '
+              'on shared pools'},
 }
